@@ -191,6 +191,15 @@ class ApiSession:
                     api.emit("attempt1", exc=type(e).__name__)
                 api.sleep(1.0)
                 api.emit("attempt2")
+            for _ in range(spec.get("check_first", 0)):
+                # the same object is first used for connection_check(): a connection of its own that is closed again
+                try:
+                    a.connection_check()
+                except sched.Hang:
+                    raise
+                except BaseException:  # noqa: BLE001
+                    pass
+                api.sleep(0.7)
             closer = spec.get("closer")
             if closer:
                 # another thread calls YncaApi.close() while initialize() is (probably) still running
@@ -256,6 +265,17 @@ class ApiSession:
                     api.emit("api_ret", call=ev["seq"], op="close", exc=type(exc).__name__ if exc else None, state=self.dump_api(a), conn_none=a._connection is None)
                 elif op[0] == "dump":
                     api.emit("api_state", state=self.dump_api(a))
+                elif op[0] == "snap":
+                    # the communication log as the YncaApi object hands it out
+                    ev = api.emit("call", op=["snap"], ctx="U0")
+                    exc, res = None, None
+                    try:
+                        res = list(a.get_communication_log_items())
+                    except sched.Hang:
+                        raise
+                    except BaseException as e:  # noqa: BLE001
+                        exc = e
+                    api.emit("ret", call=ev["seq"], op=["snap"], ctx="U0", exc=type(exc).__name__ if exc else None, msg=str(exc)[:200] if exc else None, res=res)
                 elif op[0] == "send_raw":
                     # the typed API's raw entry point: recorded as the caller's submission (the connection-level call underneath is not
                     # recorded separately, so that what was SUBMITTED is compared with the wire)
